@@ -472,6 +472,36 @@ func (i *Inst) RunRelay(r *RlScript, tw *TraceWriter, rng *rand.Rand) error {
 			hostPos = len(all)
 			pre := len(got) <= len(want) && bytes.Equal(got, want[:len(got)])
 			tw.Line(M{"ev": "c2b", "transport": r.Transport, "decl": len(want), "carr": len(want), "got": len(got), "prefix": pre, "end": ended, "hookbytes": fwd, "skipped": false, "burst": len(sizes)})
+		case "bstall":
+			// the host streams n bytes while the client does not read for ms milliseconds (the gateway's writes to the
+			// client block on full socket buffers) and then reads everything: the stream must be the host's, exactly
+			n, ms := num(a, "n", 24<<20), num(a, "ms", 6500)
+			chunk := prng(prodSeed+int64(ai), n)
+			produced = append(produced, chunk...)
+			sendErr := make(chan error, 1)
+			go func() { sendErr <- bc.Send(chunk) }()
+			time.Sleep(time.Duration(ms) * time.Millisecond)
+			npk, rcv, allwf := 0, 0, true
+			deadline := time.Now().Add(40 * time.Second)
+			for len(received) < len(produced) && time.Now().Before(deadline) {
+				b, err := t.Recv(5 * time.Second)
+				if err != nil {
+					break
+				}
+				d := tsgu.Decode(b)
+				if d.Type != tsgu.PktData {
+					allwf = false
+					continue
+				}
+				npk++
+				if !d.WellForm || d.HdrLen != d.WireLen {
+					allwf = false
+				}
+				received = append(received, d.Payload...)
+				rcv += len(d.Payload)
+			}
+			pre := len(received) <= len(produced) && bytes.Equal(received, produced[:len(received)])
+			tw.Line(M{"ev": "b2c", "transport": r.Transport, "n": n, "sizecls": "stalled-client", "npk": npk, "rcv": rcv, "prefix": pre, "allwf": allwf})
 		case "bs":
 			n := num(a, "n", 1)
 			chunk := prng(prodSeed+int64(ai), n)
